@@ -260,14 +260,17 @@ Fixpoint run (c : cfg) (s : state) (ls : list label) : option state :=
 
 (* ---------- canonical run of a fault script (used by the correspondence) ---------- *)
 Inductive connmode := CAccept | CRefuse | CStall | CAcceptClose | CNoRead
-| CNoReadEarly (t : N) (* never reads; t after accepting it sends a reply for every request id it expects *).
+| CNoReadEarly (t : N) (* never reads; t after accepting it sends a reply for every request id it expects *)
+| CSlowAccept (h : N) (* connection establishment (TCP connect + TLS handshake, both inside the dial step and under
+                         DialTimeout) completes h after it began *).
 Definition early_pay : N := 3931302481.
 (* what the peer does with the n-th request it reads: an unsolicited packet first, the proper reply after a delay,
    the reply twice, take the connection down *)
 Record act := mkact { a_junk : bool; a_reply : option N; a_dup : bool; a_down : bool }.
 
 Record scen := mkscen {
-  sc_cfg : cfg; sc_conn : connmode; sc_acts : list act; sc_callers : nat; sc_calls : nat; sc_eff : N; sc_gap : N;
+  sc_cfg : cfg; sc_conn : connmode; sc_acts : list act; sc_callers : nat; sc_calls : nat; sc_eff : N;
+  sc_gaps : list N (* pause after the j-th call of a sequential caller; the last one repeats *);
   sc_oneway : bool;
   sc_prime : bool (* concurrent callers only: one call alone first, the callers start when it has returned *) }.
 
@@ -313,7 +316,7 @@ Definition want_start (sc : scen) (s : state) : bool :=
     match n with
     | O => true
     | S m => match nth_error (calls s) m with
-             | Some k => match k_pc k with Returned => k_ret k + sc_gap sc <=? now s | _ => false end
+             | Some k => match k_pc k with Returned => k_ret k + nth_last (sc_gaps sc) m 0 <=? now s | _ => false end
              | None => false end
     end
   else false.
@@ -348,13 +351,19 @@ Definition sched (sc : scen) (s : state) (e : env) : label * env :=
   | Some (r, x) => (rcv_label s r x, e)
   | None =>
   (* the peer's side of connection establishment *)
-  match find_idx (fun k => match k_pc k with Dialing => true | _ => false end) (calls s) 0, sc_conn sc with
-  | Some (i, _), CRefuse => (LDialFail i, e)
-  | Some (i, _), CAccept | Some (i, _), CNoRead => (LDialOk i, e)
-  | Some (i, _), CNoReadEarly t =>
-      (LDialOk i, mkenv (e_pend e ++ map (fun j => (now s + t, id_of j, early_pay)) (seq 0 (expected_calls sc))) 0)
-  | Some (i, _), CAcceptClose => (LDialOk i, mkenv (e_pend e) 1)
-  | _, _ =>
+  let dial_env : option (label * env) :=
+    match find_idx (fun k => match k_pc k with Dialing => true | _ => false end) (calls s) 0, sc_conn sc with
+    | Some (i, _), CRefuse => Some (LDialFail i, e)
+    | Some (i, _), CAccept | Some (i, _), CNoRead => Some (LDialOk i, e)
+    | Some (i, _), CNoReadEarly t =>
+        Some (LDialOk i, mkenv (e_pend e ++ map (fun j => (now s + t, id_of j, early_pay)) (seq 0 (expected_calls sc))) 0)
+    | Some (i, _), CAcceptClose => Some (LDialOk i, mkenv (e_pend e) 1)
+    | Some (i, k), CSlowAccept h => if (k_t0 k + h <=? now s) && (h <? dialT c) then Some (LDialOk i, e) else None
+    | _, _ => None
+    end in
+  match dial_env with
+  | Some r => r
+  | None =>
   (* the sender goroutine writes the head of the queue; the peer reads it and follows its script *)
   let can_take := match sc_conn sc with CNoRead | CNoReadEarly _ => match wire s with [] => true | _ => false end | _ => true end in
   match sendq s with
@@ -548,12 +557,12 @@ Definition model_held (sc : scen) : N :=
 
 (* ---------- a correspondence case ---------- *)
 Record c09case := mkcase {
-  cc_cfg : cfg; cc_conn : connmode; cc_acts : list act; cc_callers : nat; cc_calls : nat; cc_eff : N; cc_gap : N;
+  cc_cfg : cfg; cc_conn : connmode; cc_acts : list act; cc_callers : nat; cc_calls : nat; cc_eff : N; cc_gaps : list N;
   cc_oneway : bool; cc_prime : bool; cc_predict : bool;
   cc_held : option N (* largest number of reply receivers seen blocked at once, when sampled *); cc_obs : list (ocls * N); cc_events : list event; cc_final : N * N * N }.
 
 Definition c09_check (x : c09case) : bool :=
-  let sc := mkscen (cc_cfg x) (cc_conn x) (cc_acts x) (cc_callers x) (cc_calls x) (cc_eff x) (cc_gap x) (cc_oneway x) (cc_prime x) in
+  let sc := mkscen (cc_cfg x) (cc_conn x) (cc_acts x) (cc_callers x) (cc_calls x) (cc_eff x) (cc_gaps x) (cc_oneway x) (cc_prime x) in
   (if cc_predict x then predicted sc (cc_obs x) && model_trace_ok sc &&
                         match cc_held x with Some h => model_held sc <=? h | None => true end
    else true)
